@@ -98,17 +98,44 @@ class Expression(ABC):
             self._pure = all(child.is_pure(rules, seen) for child in self.children())
         return self._pure
 
-    def map_bottom_up(self, func: Callable[[Expression], Expression]) -> Expression:
-        """Apply `func` in a post order tree traversal of this expression tree."""
-        new_children = [c.map_bottom_up(func) for c in self.children()]
-        expr = self.with_children(new_children)
-        return func(expr)
+    def map_bottom_up(
+        self,
+        func: Callable[[Expression], Expression],
+        _mapped: dict[int, tuple[Expression, Expression]] | None = None,
+    ) -> Expression:
+        """Apply `func` in a post order tree traversal of this expression tree.
 
-    def map_top_down(self, func: Callable[[Expression], Expression]) -> Expression:
-        """Apply `func` in a pre order tree traversal of this expression tree."""
-        expr = func(self)
-        new_children = [c.map_top_down(func) for c in expr.children()]
-        return expr.with_children(new_children)
+        An expression that occurs more than once, like the operand of a
+        repetition that has been unrolled, is mapped once.
+        """
+        if _mapped is None:
+            _mapped = {}
+
+        if id(self) not in _mapped:
+            new_children = [c.map_bottom_up(func, _mapped) for c in self.children()]
+            # Holding on to `self` keeps its id from being used again.
+            _mapped[id(self)] = (self, func(self.with_children(new_children)))
+        return _mapped[id(self)][1]
+
+    def map_top_down(
+        self,
+        func: Callable[[Expression], Expression],
+        _mapped: dict[int, tuple[Expression, Expression]] | None = None,
+    ) -> Expression:
+        """Apply `func` in a pre order tree traversal of this expression tree.
+
+        An expression that occurs more than once, like the operand of a
+        repetition that has been unrolled, is mapped once.
+        """
+        if _mapped is None:
+            _mapped = {}
+
+        if id(self) not in _mapped:
+            expr = func(self)
+            new_children = [c.map_top_down(func, _mapped) for c in expr.children()]
+            # Holding on to `self` keeps its id from being used again.
+            _mapped[id(self)] = (self, expr.with_children(new_children))
+        return _mapped[id(self)][1]
 
     def tree_view(self) -> str:
         """Return an ASCII tree view of this expression and its children."""
